@@ -50,12 +50,13 @@ def limit_df(df, fs, start=None, stop=None, reset_indices=True):
 
     # Ensure arguments are within valid range
     check_param_range(fs, 'fs', (0, np.inf))
-    check_param_range(start, 'start', (0, stop))
-    check_param_range(stop, 'stop', (start, np.inf))
+    #   Either limit may be omitted
+    start = 0 if start is None else start
+    check_param_range(start, 'start', (0, np.inf if stop is None else stop))
+    if stop is not None:
+        check_param_range(stop, 'stop', (start, np.inf))
 
     center_e, side_e = get_extrema_df(df)
-
-    start = 0 if start is None else start
 
     df = df[df['sample_last_' + side_e].values >= start*fs]
 
@@ -69,7 +70,9 @@ def limit_df(df, fs, start=None, stop=None, reset_indices=True):
         df['sample_' + center_e] = df['sample_' + center_e] - int(fs * start)
         df['sample_zerox_rise'] = df['sample_zerox_rise'] - int(fs * start)
         df['sample_zerox_decay'] = df['sample_zerox_decay'] - int(fs * start)
-        df['sample_last_zerox_decay'] = df['sample_last_zerox_decay'] - int(fs * start)
+        #   The last zero-crossing is a decay for peak-centered and a rise for trough-centered cycles
+        last_zerox = 'sample_last_zerox_decay' if center_e == 'peak' else 'sample_last_zerox_rise'
+        df[last_zerox] = df[last_zerox] - int(fs * start)
 
     return df
 
